@@ -54,7 +54,7 @@ class Pool:
         for k, (spc, du, pr) in self._dualrep.items():
             self.c[k] = self.minv(spc, du).dot(pr)
             self.gfsp[k] = spc
-        self.blkdef = {"B": [["V11", "T21"], ["K12", "V22"]], "C": [["I11", None], [None, "V22"]], "R": [["T21", "V11"], ["V22", "K12"]], "D": [["V33"]], "E": [["X12"]]}
+        self.blkdef = {"B": [["V11", "T21"], ["K12", "V22"]], "C": [["I11", None], [None, "V22"]], "R": [["T21", "V11"], ["V22", "K12"]], "D": [["V33"]], "E": [["X12"]], "F": [["X12", None], [None, "V22"]]}
         self.blk = {}
         for name, rows in self.blkdef.items():
             B = api.BlockedOperator(len(rows), len(rows[0]))
@@ -66,7 +66,7 @@ class Pool:
         self.gfl = {"fl12": ["f1", "f2"], "fl21": ["f2", "f1"], "fl3": ["f3"], "fl1": ["f1"]}
         self.ndof = {1: 8, 2: 12, 3: 36}
         # element-wise block shapes of the blocked atoms
-        self.blkshape = {"B": ([1, 2], [1, 2]), "C": ([1, 2], [1, 2]), "R": ([1, 2], [2, 1]), "D": ([3], [3]), "E": ([1], [1])}
+        self.blkshape = {"B": ([1, 2], [1, 2]), "C": ([1, 2], [1, 2]), "R": ([1, 2], [2, 1]), "D": ([3], [3]), "E": ([1], [1]), "F": ([1, 2], [1, 2])}
 
     # ---- building real objects -------------------------------------------------
     def build(self, t):
